@@ -142,7 +142,7 @@ def run_case(args):
 
 def run(tier, V):
     vi = build('asan')
-    n = 1500 if tier == 'quick' else 25000
+    n = 1500 if tier == "quick" else 15000
     base = common.seed() * 67867967
     res = pmap(run_case, [(vi, base + i) for i in range(n)])
     stats = {}
